@@ -55,7 +55,19 @@ def make_listing(c, T, n, cls='t2listing', shared=None, k0name='k0'):
     for k in range(n): ta[k] = times[k]; sa[k] = steps[k]
     if cls == 't2listing':
         lst.fulltimes, lst.fullsteps, lst._fullpos = ta, sa, fullpos
-        lst.times, lst.steps, lst._pos = ta, sa, fullpos
+        # an AUTOUGH2 listing with short output has MORE output times than full result
+        # sets: `times`/`steps`/`_pos` hold n + 2 entries (two short-output times after the
+        # first full one), so code that mixes up the two counts is observable
+        xt = [c.real('xt%d' % j) for j in range(2)]; xs = [c.int('xs%d' % j) for j in range(2)]
+        lo_t, hi_t = times[0].e, (times[1].e if n > 1 else times[0].e + 1000)
+        lo_s, hi_s = steps[0].e, (steps[1].e if n > 1 else steps[0].e + 1000)
+        c.add(lo_t < xt[0].e); c.add(xt[0].e < xt[1].e); c.add(xt[1].e < hi_t)
+        c.add(lo_s < xs[0].e); c.add(xs[0].e < xs[1].e); c.add(xs[1].e < hi_s)
+        tl = [times[0]] + xt + list(times[1:]); sl = [steps[0]] + xs + list(steps[1:])
+        ta2 = np.empty(n + 2, dtype=object); sa2 = np.empty(n + 2, dtype=object)
+        for k in range(n + 2): ta2[k] = tl[k]; sa2[k] = sl[k]
+        lst.times, lst.steps = ta2, sa2
+        lst._pos = [fullpos[0], fullpos[0] + 11, fullpos[0] + 23] + fullpos[1:]
         def read_tables():
             pos = lst._file.pos
             log.append(('read', pos))
@@ -239,7 +251,10 @@ def task_sequence(actions, n):
             prove(False, 'no-exception', 'raised %s: %s' % (type(ex).__name__, ex)); return 'raised'
         k = lst.index
         ref, _, _, _, log2, _ = make_listing(c, T, n, shared=(times, steps), k0name='kref')
-        ref.index = k
+        try:
+            ref.index = k
+        except Exception as ex:
+            prove(False, 'index-in-range', 'the reported index %r cannot be used to position a listing directly (%s)' % (k, type(ex).__name__)); return 'bad-index'
         e = lambda v: v.e if hasattr(v, 'e') else (z3.RealVal(v) if isinstance(v, float) else z3.IntVal(int(v)))
         if any(v is None for v in (lst.time, lst.step, ref.time, ref.step)):
             prove(False, 'header-read', 'tables were read at an offset that is not the start of a result set'); return 'bad-read'
